@@ -1,4 +1,6 @@
 //! C15 Comparing and hashing Recon text agrees with comparing parsed values.
+mod head_model;
+
 use bytes::BytesMut;
 use proptest::prelude::*;
 use serde::{Deserialize, Serialize};
@@ -219,9 +221,78 @@ fn signed_zero_differs(a: &Value, b: &Value) -> bool {
 /// Cell for two texts that are expected to be equal: the first known-relevant feature, else a
 /// coarse list of the syntax used.
 fn text_cell(a: &str, b: &str) -> String {
+    text_cell_for(a, b, false)
+}
+
+/// Rewrite every line break (outside string literals) inside an attribute body as `,` (or as a
+/// space where a comma would change the value), keeping the parsed value unchanged.
+fn without_newlines_in_attr_bodies(t: &str) -> String {
+    let Some(original) = parse(t) else { return t.to_string() };
+    let mut chars: Vec<char> = t.chars().collect();
+    let mut i = 0;
+    loop {
+        // recompute the lexical state up to i
+        let mut in_str = false;
+        let mut esc = false;
+        let mut parens = 0usize;
+        let mut target = None;
+        for (k, c) in chars.iter().enumerate() {
+            if in_str {
+                if esc {
+                    esc = false;
+                } else if *c == '\\' {
+                    esc = true;
+                } else if *c == '"' {
+                    in_str = false;
+                }
+                continue;
+            }
+            match c {
+                '"' => in_str = true,
+                '(' => parens += 1,
+                ')' => parens = parens.saturating_sub(1),
+                '\n' | '\r' if parens > 0 && k >= i => {
+                    target = Some(k);
+                    break;
+                }
+                _ => {}
+            }
+        }
+        let Some(k) = target else { break };
+        let mut done = false;
+        for repl in [',', ' '] {
+            let keep = chars[k];
+            chars[k] = repl;
+            let candidate: String = chars.iter().collect();
+            if parse(&candidate).map(|v| structurally_same(&v, &original)).unwrap_or(false) {
+                done = true;
+                break;
+            }
+            chars[k] = keep;
+        }
+        let _ = done;
+        i = k + 1;
+    }
+    chars.into_iter().collect()
+}
+
+fn structurally_same(a: &Value, b: &Value) -> bool {
+    vgen::structural_eq(a, b)
+}
+
+/// Is a difference of `recon_hash` between two equal-comparing texts explained by line breaks used
+/// as item separators inside attribute bodies (which the hasher's `is_implicit_record` look-ahead
+/// does not recognise)? True iff the hashes agree once those line breaks are written as commas.
+fn newline_explains_hash_difference(a: &str, b: &str) -> bool {
+    let (na, nb) = (without_newlines_in_attr_bodies(a), without_newlines_in_attr_bodies(b));
+    let (fa, fb) = (text_feats(&na), text_feats(&nb));
+    !fa.newline_in_attr_body && !fb.newline_in_attr_body && (na != a || nb != b) && hashes(&na) == hashes(&nb)
+}
+
+fn text_cell_for(a: &str, b: &str, hash_law: bool) -> String {
     let (fa, fb) = (text_feats(a), text_feats(b));
-    if fa.newline_in_attr_body || fb.newline_in_attr_body {
-        return "newline-in-attr-body".into();
+    if hash_law && (fa.newline_in_attr_body || fb.newline_in_attr_body) && newline_explains_hash_difference(a, b) {
+        return "newline-separator-in-attr-body".into();
     }
     if fa.delims_in_string_in_attr_body || fb.delims_in_string_in_attr_body {
         return "delims-in-string-in-attr-body".into();
@@ -244,7 +315,9 @@ fn text_cell(a: &str, b: &str) -> String {
     if or(fa.slots, fb.slots) {
         all.push("slots");
     }
-    if or(fa.newline, fb.newline) {
+    if or(fa.newline_in_attr_body, fb.newline_in_attr_body) {
+        all.push("newlines-in-attr-body");
+    } else if or(fa.newline, fb.newline) {
         all.push("newlines");
     }
     if or(fa.empty_items, fb.empty_items) {
@@ -351,12 +424,22 @@ fn flat(v: &Value, out: &mut Vec<String>) {
 }
 
 /// Cell for two values that are not equal: do they differ only in how the same leaves are nested?
-fn unequal_cell(a: &Value, b: &Value) -> String {
+///
+/// `head-summed-sizes`: the frozen copy of the repository's comparison algorithm (`head_model.rs`)
+/// accepts the two event streams as equal, i.e. the pair is an instance of the listed defect (record
+/// boundaries skipped, only summed sizes of merged frames compared). Any other false positive gets a
+/// different signature.
+fn unequal_cell(ta: &str, tb: &str, a: &Value, b: &Value) -> String {
+    if let (Some(ea), Some(eb)) = (head_model::events(ta), head_model::events(tb)) {
+        if head_model::head_compare(&ea, &eb) == Some(true) && head_model::head_compare(&eb, &ea) == Some(true) {
+            return "head-summed-sizes".into();
+        }
+    }
     let (mut fa, mut fb) = (vec![], vec![]);
     flat(a, &mut fa);
     flat(b, &mut fb);
     if fa == fb {
-        "nesting-only".into()
+        "nesting-only(not-accepted-by-head-algorithm)".into()
     } else {
         last_two(&value_diff(a, b).unwrap_or_default())
     }
@@ -437,7 +520,7 @@ fn check_texts(v: &mut Verdict, ta: &str, tb: &str) -> PairFacts {
                 v.fail(
                     format!(
                         "cmp-false-positive:{}",
-                        unequal_cell(pa, pb)
+                        unequal_cell(ta, tb, pa, pb)
                     ),
                     format!(
                         "{:?} parses to {:?}, {:?} parses to {:?} (not equal) but compare_recon_values says they are equal",
@@ -465,7 +548,7 @@ fn check_texts(v: &mut Verdict, ta: &str, tb: &str) -> PairFacts {
     }
     // (when the comparison is wrongly `true` the differing hashes are a consequence, not a second defect)
     if cmp_ab && f.expected_equal && hashes(ta) != hashes(tb) {
-        let cell = if both_valid { text_cell(ta, tb) } else { validity.to_string() };
+        let cell = if both_valid { text_cell_for(ta, tb, true) } else { validity.to_string() };
         v.fail(
             format!("hash-differs:{}", cell),
             format!("compare({:?}, {:?}) = true but recon_hash differs", ta, tb),
@@ -557,9 +640,9 @@ fn check_backpressure_texts(case: &TextPair) -> Verdict {
         let cell = if !both_valid {
             "invalid".to_string()
         } else if f.expected_equal {
-            text_cell(&ta, &tb)
+            text_cell_for(&ta, &tb, true)
         } else {
-            unequal_cell(f.pa.as_ref().unwrap(), f.pb.as_ref().unwrap())
+            unequal_cell(&ta, &tb, f.pa.as_ref().unwrap(), f.pb.as_ref().unwrap())
         };
         v.fail(
             format!("backpressure:{}:{}", what, cell),
